@@ -51,7 +51,7 @@ def _invariants(ctx, py):
     # the SUPPLIED vertical velocities are values the contract assumes nothing about -- not even that they are finite (a 2D
     # user has none to give): the finite-only rewrites (x*0.0 -> 0.0, x-x -> 0.0) are not applied to what depends on them
     from pvx.sym import nonfinite_leaves
-    with nonfinite_leaves("p_VD", "q_VD", "w_VD"), tdomain(py, extra=[(S.Integrator, dict(INITIAL_SIZE=2))]):
+    with nonfinite_leaves("p_VD", "q_VD", "w_VD"), tdomain(py, extra=__import__('props.helpers', fromlist=['capacity_patches']).capacity_patches(py, 2)):
         p = t_pva("p")
         it = S.Integrator(p, False)
         ok_init = is_zero(it.velocity_n[0, 2]) and is_zero(it.trajectory.iloc[0]["VD"]) and node(it.lla[0, 2]) is node(p["alt"])
